@@ -23,15 +23,24 @@ structure Name where
   path : Option (List Nat)
   /-- `.name` -/
   name : List Nat
-  /-- everything else a user can read off the object (`type`, `description`, `full_name` …) -/
+  /-- `_name.api_type` as code points (`class`, `instance`, `function`, `statement` …): what `.type`
+  and `.description` show for every name that is not an import -/
+  apiType : List Nat
+  /-- identity of the inner name object; NOT shown by the API (two inferred values of the same api
+  type named by the same tree name are indistinguishable for a user) -/
   kind : Nat
 deriving DecidableEq, Repr
+
+/-- everything a user can read off a result: path, position, name, type -/
+def Name.visible (a : Name) : Option (List Nat) × Option (Nat × Nat) × List Nat × List Nat :=
+  (a.path, a.startPos, a.name, a.apiType)
 
 /-- one conjunct of `Name.__eq__` (field names as extracted from the source by the translator) -/
 def eqField : String → Name → Name → Bool
   | "_name.start_pos", a, b => a.startPos == b.startPos
   | "module_path", a, b => a.path == b.path
   | "name", a, b => a.name == b.name
+  | "_name.api_type", a, b => a.apiType == b.apiType
   | "_inference_state", _, _ => true      -- one Script, one InferenceState
   | _, _, _ => false
 
@@ -44,6 +53,7 @@ def keyComponent : String → Name → List Nat
   | "line_or_0", a => [(a.startPos.map (·.1)).getD 0]         -- x.line or 0
   | "column_or_0", a => [(a.startPos.map (·.2)).getD 0]       -- x.column or 0
   | "name", a => a.name                                       -- x.name
+  | "api_type", a => a.apiType                                -- x._name.api_type
   | _, _ => []
 
 def sortKey (comps : List String) (a : Name) : List (List Nat) := comps.map (keyComponent · a)
